@@ -381,7 +381,11 @@ func (x *Exec) oblige(st *State, name, kind string, goal *Term, text, pos string
 		x.e.mu.Lock()
 		x.e.obligations = append(x.e.obligations, ob)
 		x.e.mu.Unlock()
-		st.assume(g)
+		if !g.IsFalse() {
+			// (a goal that is literally false - "this callee needs a contract" - is reported, not assumed:
+			// assuming it would make the rest of the path vacuous)
+			st.assume(g)
+		}
 	}
 }
 
